@@ -23,7 +23,9 @@ META = {
                   "start, the others getting the empty list (any collection of vertices; a single target as int or numpy "
                   "integer) -, the set query returns a nearest member "
                   "and a shortest path to it (also for one-element sets and with the start inside the set), the loop "
-                  "bound of the model is never hit; proved against the contract 'pop returns a minimum-key entry and "
+                  "bound of the model is never hit; the polyline exported with export_path_mesh (build_path, its guards, index "
+                  "expressions and offset update regenerated from the source) has the path vertices in order, one edge per "
+                  "consecutive pair of every path and no other edge, so each of its edges joins mesh-adjacent vertices; proved against the contract 'pop returns a minimum-key entry and "
                   "removes exactly it' under a representation invariant, which is proved both for a plain list queue and "
                   "for the heapq algorithm with PriorityItem.__lt__ as generated from priority_queue.py (the instance "
                   "that is executed in the correspondence). Weight selectors, relaxation comparison, sentinel and forwarded arguments are "
@@ -45,8 +47,9 @@ META = {
                   "order, direction and numbering of the chains of the exported polyline; new attributes left on the mesh, "
                   "reordering of the caller's collections, warnings and log lines. Floating-point round-off is outside the theorems: the 'length' mode is exercised on lattice meshes "
                   "whose edge lengths are exact integers, and on general coordinates through the exact dyadic values of "
-                  "the binary64 lengths with a 1e-9 relative tolerance on path weights. The exported path polyline and "
-                  "the absence of side effects on other queues are only tested by the oracle.",
+                  "the binary64 lengths with a 1e-9 relative tolerance on path weights. The exported polyline is proved for the model of "
+                  "build_path and tied to the code by the correspondence (the vertex COORDINATES it copies are matched in the "
+                  "harness); the absence of side effects on other queues is only tested by the oracle.",
 }
 
 HEADER = """From Coq Require Import ZArith List Bool.
@@ -54,7 +57,7 @@ Import ListNotations.
 Require Import MV.C09.Gen MV.C09.Model.
 Open Scope Z_scope.
 """
-CASE_TYPE = "(mesh * wspec * list (query * obs))"
+CASE_TYPE = "(mesh * wspec * list (query * obs) * list (list (list Z) * list Z * list (Z * Z)))"
 DRIVER = "vf.impl.c09_driver"
 
 
@@ -495,7 +498,33 @@ def case_term(case, info):
     m = "(mkmesh %s %s %s %s)" % (zlit(info["n"]), coq_list(["(%s, %s)" % (zlit(a), zlit(b)) for a, b in info["edges"]]),
                                   coq_list([zlist(l) for l in info["adj"]]), zlist(info["border"] or []))
     qs = coq_list(["(%s, %s)" % (query_term(q), obs_term(o)) for q, o in zip(case["queries"], info["obs"])])
-    return "(%s, %s, %s)" % (m, ws_term(case, info), qs)
+    pls = coq_list([t for t in (polyline_term(info, o) for o in info["obs"]) if t])
+    return "(%s, %s, %s, %s)" % (m, ws_term(case, info), qs, pls)
+
+
+def polyline_term(info, o):
+    """an exported polyline for the model of build_path: the paths handed to it (values of the returned dict, in its order),
+    the mesh vertex each polyline vertex copies (found through the coordinates, -1 if none fits), its edges"""
+    if o[0] == "paths" and len(o) > 2:
+        paths, pl = [p for _, p in o[1]], o[2]
+    elif o[0] == "set" and len(o) > 3:
+        paths, pl = [o[2]], o[3]
+    elif o[0] == "border" and len(o) > 2:
+        paths, pl = [o[1]], o[2]
+    else:
+        return None
+    if any(p is None for p in paths):
+        return None
+    P = info["coords"]
+    flat = [v for p in paths for v in p]
+    ids = []
+    for j, c in enumerate(pl["vertices"]):
+        if j < len(flat) and 0 <= flat[j] < len(P) and P[flat[j]] == c:
+            ids.append(flat[j])
+        else:
+            ids.append(next((v for v in range(len(P)) if P[v] == c), -1))
+    return "(%s, %s, %s)" % (coq_list([zlist(p) for p in paths]), zlist(ids),
+                             coq_list(["(%s, %s)" % (zlit(a), zlit(b)) for a, b in pl["edges"]]))
 
 
 # ---------------------------------------------------------------------- independent oracle (property restated)
